@@ -1,6 +1,294 @@
+import Proofs.C09.Legacy
+import Proofs.C09.Bip341
+import Proofs.C09.Impl
 /-!
-# C09 — property theorems only (see DESIGN.md §3 C09).
+# C09 — signature hashes equal the legacy, BIP143 and BIP341 definitions
+
+Property theorems only (DESIGN §3 C09).  Two layers:
+
+* the SPECIFICATION `Btc.Sighash.{legacyPreimage, bip143Preimage, bip341Preimage}` (`Model/C09/Sighash.lean`),
+  written from Core's `CTransactionSignatureSerializer`, BIP143 and BIP341/342 over hash PARAMETERS and the
+  constants regenerated from btclib's source (`Gen.SigHash.*`); T2 and T4 are about it;
+* the btclib-shaped functions `Btc.Sighash.Impl.*` (`Model/C09/Impl.lean`), tied to `btclib/script/sig_hash.py`
+  by the correspondence streams; T1 and T3 are about them.  That the two layers compute the same digest is
+  checked by the driver on every accepted line of every stream (`specdiff`), not yet a theorem.
+
+`Collides H a b` is an explicit collision: `a ≠ b ∧ H a = H b`.
 -/
 namespace Props.C09
+open Btc Btc.Sighash
+
+/-! ## T1 — precomputed = direct (any SHA256 parameter `S`) -/
+
+/-- T1 (BIP143): `segwit_v0` with the `PrecomputedTxData` of this very transaction answers what it answers
+    without, for every script code, index, hash type and amount -- digests and refusals alike. -/
+theorem segwit_v0_precomputed_eq_direct (S : Bytes → Bytes) (tx : Tx) (prevouts : List TxOut)
+    (p : Impl.Precomputed) (hp : Impl.precompute S tx prevouts = .ok p) (sc : Bytes) (i ht amount : Int) :
+    Impl.segwitV0 S sc tx i ht amount (some p) = Impl.segwitV0 S sc tx i ht amount none :=
+  Impl.segwitV0_precomputed hp sc i ht amount
+
+/-- T1 (BIP341): the same for `taproot`, for every index, hash type, extension flag, annex and extension. -/
+theorem taproot_precomputed_eq_direct (S : Bytes → Bytes) (tx : Tx) (prevouts : List TxOut)
+    (p : Impl.Precomputed) (hp : Impl.precompute S tx prevouts = .ok p) (i ht extFlag : Int) (annex msgExt : Bytes) :
+    Impl.taproot S tx i prevouts ht extFlag annex msgExt (some p) =
+      Impl.taproot S tx i prevouts ht extFlag annex msgExt none :=
+  Impl.taproot_precomputed hp i ht extFlag annex msgExt
+
+/-! ## T2 — commitment: equal preimages ⇒ equal committed fields (or an explicit collision) -/
+
+/-- T2 (legacy): for the same input index, equal legacy preimages of well-formed arguments mean the same hash
+    type, version, lock time, the same outpoint and sequence of the signed input and the same script code less its
+    OP_CODESEPARATORs; every outpoint unless ANYONECANPAY; every sequence under ALL-like types without
+    ANYONECANPAY; every output unless NONE/SINGLE; the matching output under SINGLE.  No hash is involved: the
+    legacy preimage contains the fields themselves.  (The SIGHASH_SINGLE out-of-range constant is the stated
+    exception: `legacy_single_bug_commits_nothing`.) -/
+theorem legacy_commits (sc sc' : Bytes) (tx tx' : Tx) (nIn ht ht' : Nat)
+    (wf : tx.WF) (wf' : tx'.WF) (hsc : Sized sc) (hsc' : Sized sc')
+    (hin : nIn < tx.vin.length) (hin' : nIn < tx'.vin.length) (hno : nIn < 18446744073709551615)
+    (hht : ht < 4294967296) (hht' : ht' < 4294967296)
+    (h : legacyPreimage sc tx nIn ht = legacyPreimage sc' tx' nIn ht') :
+    ht = ht' ∧ tx.version = tx'.version ∧ tx.lockTime = tx'.lockTime ∧
+    (tx.vin.getD nIn dfltIn).prev = (tx'.vin.getD nIn dfltIn).prev ∧
+    (tx.vin.getD nIn dfltIn).sequence = (tx'.vin.getD nIn dfltIn).sequence ∧
+    withoutCodeSeparators sc = withoutCodeSeparators sc' ∧
+    (anyoneCanPay ht = false → tx.vin.map (·.prev) = tx'.vin.map (·.prev)) ∧
+    (anyoneCanPay ht = false → isSingle ht = false → isNone ht = false →
+      tx.vin.map (·.sequence) = tx'.vin.map (·.sequence)) ∧
+    (isSingle ht = false → isNone ht = false → tx.vout = tx'.vout) ∧
+    (isSingle ht = true → tx.vout.getD nIn blankOut = tx'.vout.getD nIn blankOut) := by
+  obtain ⟨ht_eq, e⟩ := legacyPreimage_inj (legacyTx_wf wf hsc hin hno) (legacyTx_wf wf' hsc' hin' hno) hht hht' h
+  subst e
+  obtain ⟨v, l⟩ := legacyTx_version ht_eq
+  obtain ⟨o1, o2, o3⟩ := legacyTx_own ht_eq hin
+  exact ⟨rfl, v, l, o1, o2, o3, fun a => (legacyTx_prevouts ht_eq a).2, legacyTx_sequences ht_eq,
+    legacyTx_outputs ht_eq, legacyTx_single ht_eq⟩
+
+/-- T2 (legacy), digest level: equal digests (outside the SINGLE bug) mean equal preimages -- hence
+    `legacy_commits` -- or the two preimages are an explicit collision of `H` (hash256). -/
+theorem legacy_digest_commits (H : Bytes → Bytes) (sc sc' : Bytes) (tx tx' : Tx) (nIn ht ht' : Nat)
+    (hb : legacySingleBug tx nIn ht = false) (hb' : legacySingleBug tx' nIn ht' = false)
+    (h : legacyDigest H sc tx nIn ht = legacyDigest H sc' tx' nIn ht') :
+    legacyPreimage sc tx nIn ht = legacyPreimage sc' tx' nIn ht' ∨
+      Collides H (legacyPreimage sc tx nIn ht) (legacyPreimage sc' tx' nIn ht') := by
+  simp only [legacyDigest, hb, hb', Bool.false_eq_true, ↓reduceIte] at h
+  exact open_hash h
+
+/-- the stated exception: under the SIGHASH_SINGLE bug the digest is the constant, whatever the transaction,
+    the script code and the rest of the hash type are -- it commits to nothing. -/
+theorem legacy_single_bug_commits_nothing (H : Bytes → Bytes) (sc : Bytes) (tx : Tx) (nIn ht : Nat)
+    (hb : legacySingleBug tx nIn ht = true) : legacyDigest H sc tx nIn ht = Gen.SigHash.SINGLE_BUG_DIGEST := by
+  simp [legacyDigest, hb]
+
+/-- T2 (BIP143): equal BIP143 preimages (hash parameter `H` with 32-byte output) mean the same hash type,
+    version, lock time, outpoint and sequence of the signed input, script code (whole) and amount; and, through
+    the three inner hashes, every outpoint unless ANYONECANPAY, every sequence for ALL-like types, every output
+    unless NONE/SINGLE, the matching output under SINGLE -- each OR an explicit `H`-collision between the two
+    serializations named. -/
+theorem bip143_commits (H : Bytes → Bytes) (hH : ∀ x, (H x).length = 32) (sc sc' : Bytes) (tx tx' : Tx)
+    (nIn ht ht' : Nat) (amount amount' : Int)
+    (wf : tx.WF) (wf' : tx'.WF) (hin : nIn < tx.vin.length) (hin' : nIn < tx'.vin.length)
+    (hsc : Sized sc) (hsc' : Sized sc') (ha : I64 amount) (ha' : I64 amount')
+    (hht : ht < 4294967296) (hht' : ht' < 4294967296)
+    (h : bip143Preimage H sc tx nIn ht amount = bip143Preimage H sc' tx' nIn ht' amount') :
+    ht = ht' ∧ tx.version = tx'.version ∧ tx.lockTime = tx'.lockTime ∧
+    (tx.vin.getD nIn dfltIn).prev = (tx'.vin.getD nIn dfltIn).prev ∧
+    (tx.vin.getD nIn dfltIn).sequence = (tx'.vin.getD nIn dfltIn).sequence ∧
+    sc = sc' ∧ amount = amount' ∧
+    (anyoneCanPay ht = false →
+      tx.vin.map (·.prev) = tx'.vin.map (·.prev) ∨ Collides H (serPrevouts tx) (serPrevouts tx')) ∧
+    (anyoneCanPay ht = false → isSingle ht = false → isNone ht = false →
+      tx.vin.map (·.sequence) = tx'.vin.map (·.sequence) ∨ Collides H (serSequences tx) (serSequences tx')) ∧
+    (isSingle ht = false → isNone ht = false →
+      tx.vout = tx'.vout ∨ Collides H (serOutputs tx) (serOutputs tx')) ∧
+    (isSingle ht = true → nIn < tx.vout.length → nIn < tx'.vout.length →
+      tx.vout.getD nIn blankOut = tx'.vout.getD nIn blankOut ∨
+        Collides H (serTxOut (tx.vout.getD nIn blankOut)) (serTxOut (tx'.vout.getD nIn blankOut))) := by
+  obtain ⟨e1, e2, e3, e4, e5, e6, e7, e8, e9, e10⟩ := bip143Preimage_inj hH wf.version wf'.version wf.lockTime
+    wf'.lockTime (getD_wf_in wf.vin hin) (getD_wf_in wf'.vin hin') hsc hsc' ha ha' hht hht' h
+  subst e10
+  refine ⟨rfl, e1, e9, e4, e7, e5, e6, ?_, ?_, ?_, ?_⟩
+  · intro hacp
+    simp only [bip143HashPrevouts, hacp, Bool.not_false, ↓reduceIte] at e2
+    exact (open_hash e2).imp (serPrevouts_inj wf.vin wf'.vin) id
+  · intro hacp hs hn
+    simp only [bip143HashSequence, hacp, hs, hn, Bool.not_false, and_self, ↓reduceIte] at e3
+    exact (open_hash e3).imp (serSequences_inj wf.vin wf'.vin) id
+  · intro hs hn
+    simp only [bip143HashOutputs, hs, hn, Bool.not_false, and_self, ↓reduceIte] at e8
+    exact (open_hash e8).imp (serOutputs_inj wf.vout wf'.vout) id
+  · intro hs ho ho'
+    simp only [bip143HashOutputs, hs, ho, ho', Bool.not_true, Bool.false_eq_true, false_and, and_self,
+      ↓reduceIte] at e8
+    exact (open_hash e8).imp
+      (fun e => serTxOut_prefixInj.inj (getD_wf_out wf.vout nIn) (getD_wf_out wf'.vout nIn) e) id
+
+/-- T2 (BIP341/342): equal `SigMsg` preimages (SHA256 parameter `S` with 32-byte output, hash types below 256)
+    mean the same hash type, version, lock time, spend type (annex present / extension present) and the same
+    BIP342 extension (tapleaf hash, key version, codeseparator position); without ANYONECANPAY the same input
+    index and -- each OR an explicit `S`-collision -- every outpoint, every spent amount, every spent
+    scriptPubKey, every sequence; with ANYONECANPAY the outpoint, spent amount, spent scriptPubKey and sequence
+    of the signed input themselves; every output unless NONE/SINGLE, the matching output under SINGLE, and
+    the annex, each OR an explicit collision. -/
+theorem bip341_commits (S : Bytes → Bytes) (hS : ∀ x, (S x).length = 32) (tx tx' : Tx) (nIn nIn' : Nat)
+    (spent spent' : List TxOut) (ht ht' : Nat) (annex annex' : Option Bytes) (ext ext' : Option TapExt)
+    (wf : tx.WF) (wf' : tx'.WF) (ws : ∀ o ∈ spent, o.WF) (ws' : ∀ o ∈ spent', o.WF)
+    (hin : nIn < tx.vin.length) (hin' : nIn' < tx'.vin.length)
+    (hn : nIn < 4294967296) (hn' : nIn' < 4294967296) (hht : ht < 256) (hht' : ht' < 256)
+    (we : ∀ e, ext = some e → e.WF) (we' : ∀ e, ext' = some e → e.WF)
+    (h : bip341Preimage S tx nIn spent ht annex ext = bip341Preimage S tx' nIn' spent' ht' annex' ext') :
+    ht = ht' ∧ tx.version = tx'.version ∧ tx.lockTime = tx'.lockTime ∧
+    ext = ext' ∧ annex.isSome = annex'.isSome ∧
+    (tapAcp ht = false → nIn = nIn' ∧
+      (tx.vin.map (·.prev) = tx'.vin.map (·.prev) ∨ Collides S (serPrevouts tx) (serPrevouts tx')) ∧
+      (spent.map (·.value) = spent'.map (·.value) ∨ Collides S (serAmounts spent) (serAmounts spent')) ∧
+      (spent.map (·.spk) = spent'.map (·.spk) ∨ Collides S (serScriptPubKeys spent) (serScriptPubKeys spent')) ∧
+      (tx.vin.map (·.sequence) = tx'.vin.map (·.sequence) ∨ Collides S (serSequences tx) (serSequences tx'))) ∧
+    (tapAcp ht = true →
+      (tx.vin.getD nIn dfltIn).prev = (tx'.vin.getD nIn' dfltIn).prev ∧
+      (tx.vin.getD nIn dfltIn).sequence = (tx'.vin.getD nIn' dfltIn).sequence ∧
+      spent.getD nIn blankOut = spent'.getD nIn' blankOut) ∧
+    (tapNone ht = false → tapSingle ht = false →
+      tx.vout = tx'.vout ∨ Collides S (serOutputs tx) (serOutputs tx')) ∧
+    (tapSingle ht = true →
+      tx.vout.getD nIn blankOut = tx'.vout.getD nIn' blankOut ∨
+        Collides S (serTxOut (tx.vout.getD nIn blankOut)) (serTxOut (tx'.vout.getD nIn' blankOut))) ∧
+    (∀ a a', annex = some a → annex' = some a' → Sized a → Sized a' →
+      a = a' ∨ Collides S (varBytes a) (varBytes a')) := by
+  obtain ⟨e0, e1, e2, e3, e4, e5, e6, e7, e8, e9, e10⟩ := bip341Preimage_inj hS hht hht' wf.version wf'.version
+    wf.lockTime wf'.lockTime (fun _ => ⟨getD_wf_in wf.vin hin, getD_wf_out ws nIn⟩)
+    (fun _ => ⟨getD_wf_in wf'.vin hin', getD_wf_out ws' nIn'⟩) hn hn' we we' h
+  subst e0
+  refine ⟨rfl, e1, e2, e10, e6, ?_, ?_, ?_, ?_, ?_⟩
+  · intro hacp
+    simp only [tapTxHashes, hacp, Bool.not_false, ↓reduceIte] at e3
+    simp only [tapInputData, hacp, Bool.false_eq_true, ↓reduceIte] at e7
+    obtain ⟨a1, e3⟩ := List.append_inj e3 (by rw [hS, hS])
+    obtain ⟨a2, e3⟩ := List.append_inj e3 (by rw [hS, hS])
+    obtain ⟨a3, a4⟩ := List.append_inj e3 (by rw [hS, hS])
+    have := le4_inj (a := (nIn : Int)) (b := (nIn' : Int)) (by unfold U32; omega) (by unfold U32; omega) e7
+    exact ⟨by omega, (open_hash a1).imp (serPrevouts_inj wf.vin wf'.vin) id,
+      (open_hash a2).imp (serAmounts_inj ws ws') id, (open_hash a3).imp (serScriptPubKeys_inj ws ws') id,
+      (open_hash a4).imp (serSequences_inj wf.vin wf'.vin) id⟩
+  · intro hacp
+    simp only [tapInputData, hacp, ↓reduceIte] at e7
+    have w1 := getD_wf_in wf.vin hin
+    have w1' := getD_wf_in wf'.vin hin'
+    have w2 := getD_wf_out ws nIn
+    have w2' := getD_wf_out ws' nIn'
+    obtain ⟨a1, e7⟩ := serOutPoint_prefixInj _ _ _ _ w1.prev w1'.prev e7
+    obtain ⟨a2, e7⟩ := le8s_prefixInj _ _ _ _ w2.value w2'.value e7
+    obtain ⟨a3, e7⟩ := varBytes_prefixInj _ _ _ _ w2.spk w2'.spk e7
+    have a4 := le4_inj w1.sequence w1'.sequence e7
+    refine ⟨a1, a4, ?_⟩
+    cases hx : spent.getD nIn blankOut; cases hy : spent'.getD nIn' blankOut
+    simp_all
+  · intro hn hs
+    simp only [tapOutputsHash, hn, hs, Bool.not_false, and_self, ↓reduceIte] at e4
+    exact (open_hash e4).imp (serOutputs_inj wf.vout wf'.vout) id
+  · intro hs
+    simp only [tapSingleHash, hs, ↓reduceIte] at e9
+    exact (open_hash e9).imp
+      (fun e => serTxOut_prefixInj.inj (getD_wf_out wf.vout nIn) (getD_wf_out wf'.vout nIn') e) id
+  · intro a a' ha ha' sa sa'
+    subst ha ha'
+    simp only [tapAnnexHash] at e8
+    exact (open_hash e8).imp (fun e => varBytes_prefixInj.inj sa sa' e) id
+
+/-- T2 (BIP341), digest level: equal tagged digests mean equal messages or an explicit collision of `S` on the
+    two tagged inputs. -/
+theorem bip341_digest_commits (S : Bytes → Bytes) (tx tx' : Tx) (nIn nIn' : Nat) (spent spent' : List TxOut)
+    (ht ht' : Nat) (annex annex' : Option Bytes) (ext ext' : Option TapExt)
+    (h : bip341Digest S tx nIn spent ht annex ext = bip341Digest S tx' nIn' spent' ht' annex' ext') :
+    bip341Preimage S tx nIn spent ht annex ext = bip341Preimage S tx' nIn' spent' ht' annex' ext' ∨
+      ∃ a b, Collides S a b := by
+  unfold bip341Digest taggedWith at h
+  rcases open_hash h with e | c
+  · exact Or.inl (List.append_cancel_left (List.append_cancel_left e))
+  · exact Or.inr ⟨_, _, c⟩
+
+/-- T2 (BIP143), digest level. -/
+theorem bip143_digest_commits (H : Bytes → Bytes) (sc sc' : Bytes) (tx tx' : Tx) (nIn ht ht' : Nat)
+    (amount amount' : Int) (h : bip143Digest H sc tx nIn ht amount = bip143Digest H sc' tx' nIn ht' amount') :
+    bip143Preimage H sc tx nIn ht amount = bip143Preimage H sc' tx' nIn ht' amount' ∨
+      Collides H (bip143Preimage H sc tx nIn ht amount) (bip143Preimage H sc' tx' nIn ht' amount') :=
+  open_hash h
+
+/-! ## T3 — the declared errors are refused -/
+
+/-- T3 (BIP341): whenever `taproot` answers with a digest the input index names an input, the hash type is one
+    of the seven of `SIG_HASH_TYPES` (regenerated from the source), and SIGHASH_SINGLE has its output -- i.e.
+    an undefined type, an index out of range and SINGLE without a matching output are all refused. -/
+theorem taproot_refuses_declared_errors (S : Bytes → Bytes) (tx : Tx) (i : Int) (prevouts : List TxOut)
+    (ht extFlag : Int) (annex msgExt : Bytes) (pre : Option Impl.Precomputed) (d : Bytes)
+    (h : Impl.taproot S tx i prevouts ht extFlag annex msgExt pre = .ok d) :
+    0 ≤ i ∧ i < tx.vin.length ∧ Impl.intMem ht Gen.SigHash.SIG_HASH_TYPES = true ∧
+      ¬ (tapSingle ht.toNat = true ∧ i.toNat ≥ tx.vout.length) :=
+  Impl.taproot_ok_defined h
+
+/-- the seven: exactly BIP341's (0x80 alone, ANYONECANPAY with DEFAULT, is not among them) -/
+theorem taproot_seven_types (ht : Int) :
+    Impl.intMem ht Gen.SigHash.SIG_HASH_TYPES = true ↔
+      ht = 0 ∨ ht = 1 ∨ ht = 2 ∨ ht = 3 ∨ ht = 0x81 ∨ ht = 0x82 ∨ ht = 0x83 := by
+  simp only [Impl.intMem, Gen.SigHash.SIG_HASH_TYPES, List.any_cons, List.any_nil, Bool.or_false, Bool.or_eq_true,
+    beq_iff_eq]
+  omega
+
+/-- T3 (legacy, BIP143): an input index outside the transaction is refused. -/
+theorem legacy_segwit_refuse_bad_index (S : Bytes → Bytes) (sc : Bytes) (tx : Tx) (i ht amount : Int)
+    (pre : Option Impl.Precomputed) (d : Bytes) :
+    (Impl.legacy S sc tx i ht = .ok d → 0 ≤ i ∧ i < tx.vin.length) ∧
+    (Impl.segwitV0 S sc tx i ht amount pre = .ok d → 0 ≤ i ∧ i < tx.vin.length) :=
+  ⟨Impl.legacy_ok_index, Impl.segwitV0_ok_index⟩
+
+/-- the SIGHASH_SINGLE bug is kept: index in range, a hash type that fits its four bytes, base type SINGLE and no
+    matching output ⇒ the constant `01 00…00`, not an error. -/
+theorem legacy_single_out_of_range (S : Bytes → Bytes) (sc : Bytes) (tx : Tx) (i ht : Int) (sht : Bytes)
+    (hht : Gen.SigHash.serialized_hash_type ht = .ok sht) (h0 : 0 ≤ i) (h1 : i < tx.vin.length)
+    (hs : baseType (Impl.word ht) = Gen.SigHash.SINGLE) (ho : i.toNat ≥ tx.vout.length) :
+    Impl.legacy S sc tx i ht = .ok Gen.SigHash.SINGLE_BUG_DIGEST :=
+  Impl.legacy_single_bug hht h0 h1 hs ho
+
+/-! ## T4 — OP_CODESEPARATOR removal -/
+
+/-- T4: reading the stripped script operation by operation (Core's `GetOp`) gives exactly the operations of
+    the original that are not OP_CODESEPARATOR, in order and byte for byte, and the same unreadable tail: the
+    OP_CODESEPARATOR *op codes* are removed and nothing else -- a 0xAB inside a push is part of that push's
+    chunk and stays, and bytes after an unreadable push are kept verbatim. -/
+theorem codesep_removes_exactly_the_opcodes (s : Bytes) :
+    walk (withoutCodeSeparators s) = ((walk s).1.filter (fun c => !chunkIsSep c), (walk s).2) :=
+  walk_withoutCodeSeparators s
+
+/-- T4: idempotent. -/
+theorem codesep_removal_idempotent (s : Bytes) :
+    withoutCodeSeparators (withoutCodeSeparators s) = withoutCodeSeparators s :=
+  withoutCodeSeparators_idem s
+
+/-- T4: the walk loses nothing (chunks and tail are the script), so a script without OP_CODESEPARATOR op codes
+    is left as it is. -/
+theorem codesep_none_is_identity (s : Bytes) (h : ∀ c ∈ (walk s).1, chunkIsSep c = false) :
+    withoutCodeSeparators s = s := by
+  unfold withoutCodeSeparators
+  have : (walk s).1.filter (fun c => !chunkIsSep c) = (walk s).1 :=
+    List.filter_eq_self.mpr (fun c hc => by simp [h c hc])
+  simp only [this]
+  exact walk_reconstructs s
+
+/-- the CompactSize writer of the specification is the translated `var_int.serialize`. -/
+theorem compactSize_is_var_int_serialize (n : Nat) (hn : n < 18446744073709551616) :
+    Gen.VarInt.serialize (n : Int) = .ok (compactSize n) :=
+  compactSize_eq_gen n hn
+
+/-! ## non-vacuity -/
+
+-- a separator inside a push stays, the op code goes, the truncated push's bytes stay
+example : withoutCodeSeparators [0x01, 0xAB, 0xAB, 0x51, 0x02, 0xAB] = [0x01, 0xAB, 0x51, 0x02, 0xAB] := by decide
+example : (walk [0x01, 0xAB, 0xAB, 0x51, 0x02, 0xAB]) = ([[0x01, 0xAB], [0xAB], [0x51]], [0x02, 0xAB]) := by decide
+-- the masks read off the source
+example : baseType 0x83 = Gen.SigHash.SINGLE ∧ anyoneCanPay 0x83 = true ∧ isNone 0xFFFFFF02 = true := by decide
+example : tapSingle 0x83 = true ∧ tapAcp 0x83 = true ∧ tapAcp 3 = false := by decide
+-- a concrete well-formed transaction and its legacy preimage length
+def exTx : Tx := ⟨2, [⟨⟨List.replicate 32 7, 1⟩, [], 0xFFFFFFFE⟩], [⟨1000, [0x51]⟩], 0⟩
+example : (legacyPreimage [0xAB, 0x51] exTx 0 1).length = 4 + 1 + (36 + 2 + 4) + 1 + (8 + 2) + 4 + 4 := by decide
+example : legacySingleBug exTx 0 3 = false ∧ legacySingleBug { exTx with vout := [] } 0 3 = true := by decide
 
 end Props.C09
